@@ -1070,8 +1070,24 @@ def _initial_checks(eng: C10Engine) -> Optional[str]:
 PRUNE = False
 
 
+def build_engine(env: Env, world: World, via: str) -> Tuple[Optional["C10Engine"], Optional[Dict[str, Any]]]:
+    """The consistent schema of the reference model is built through the public constructors and add() calls (or
+    parsed): a library error raised by that fresh build is reported, not treated as a harness problem."""
+    try:
+        return C10Engine(env, world, via), None
+    except Exception as ex:
+        if not type(ex).__module__.startswith("pydbml"):
+            raise
+        return None, {"violation": {"property": PROP, "oracle": "construct",
+                                    "signature": f"construct:fresh-build-raised:{type(ex).__name__}:{via}",
+                                    "detail": {"after": {"index": -1, "op": ["construct", via]}, "raised": repr(ex)[:300]}},
+                      "counters": {}, "trace": []}
+
+
 def run_ops(env: Env, wcomp: Dict[str, Any], ops: List[List[Any]], checks: Optional[List[int]] = None) -> Dict[str, Any]:
-    eng = C10Engine(env, world_from_json(wcomp["w"]), wcomp["via"])
+    eng, bad = build_engine(env, world_from_json(wcomp["w"]), wcomp["via"])
+    if bad:
+        return bad
     res: Dict[str, Any] = {"violation": None}
     try:
         pre = _initial_checks(eng)
@@ -1108,7 +1124,9 @@ def generate(env: Env, rseed: int, thorough: bool):
     via = "parse" if g.random() < 0.4 else "api"
     world = gen_world(stream(rseed, "universe"), via == "parse")
     wj = world_to_json(world)
-    eng = C10Engine(env, world, via)
+    eng, bad = build_engine(env, world, via)
+    if bad:
+        return {"w": wj, "via": via}, [], bad
     res: Dict[str, Any] = {"violation": None}
     try:
         pre = _initial_checks(eng)
